@@ -2,6 +2,7 @@ package main
 
 import (
 	"fmt"
+	"os"
 	"go/token"
 	"go/types"
 	"math/big"
@@ -104,6 +105,12 @@ func init() {
 			// vConcrete(x uint64, max uint64) uint64: case-split x over 0..max
 			max, _ := concreteInt(a[1])
 			return CI(c.concretize(a[0], "vConcrete", pos, 0, max))
+		},
+		"vDebug": func(c *Ctx, fr *frame, fn *ssa.Function, a []value, pos token.Pos) value {
+			if os.Getenv("GOSYM_VDEBUG") != "" {
+				fmt.Fprintf(os.Stderr, "vDebug %s = %s\n", toDebug(a[0]), toDebug(a[1]))
+			}
+			return nil
 		},
 		"vIsSym": func(c *Ctx, fr *frame, fn *ssa.Function, a []value, pos token.Pos) value {
 			return CB(c.concrete == nil)
